@@ -55,8 +55,18 @@ pub struct GenCfg {
     pub trigger_period: Option<u16>,
     /// Max pixel-hit words per region in stave mode.
     pub max_hits: usize,
-    /// Force the total packet count of the stream to this value by adding RDH-only... not used.
+    /// Arbitrary legal status bits in TDT / DDW0 / detector field.
     pub free_status_bits: bool,
+    /// C13: readout frames to emit, in order, instead of generated conforming frames (first link
+    /// only). When the plan is exhausted conforming frames follow.
+    pub frame_plan: Vec<FrameSpec>,
+}
+
+/// One planned readout frame: the lanes with their chips, and the seed of the pixel-hit content.
+#[derive(Clone, Debug)]
+pub struct FrameSpec {
+    pub lanes: Vec<LaneFrame>,
+    pub hit_seed: u64,
 }
 
 impl GenCfg {
@@ -81,6 +91,7 @@ impl GenCfg {
             trigger_period: None,
             max_hits: rng.range(0, 6) as usize,
             free_status_bits: rng.chance(2, 3),
+            frame_plan: Vec::new(),
         }
     }
 }
@@ -299,6 +310,7 @@ struct LinkGen<'a> {
     cdw_index: u32,
     last_internal_bc: Option<u16>,
     packets: Vec<Packet>,
+    plan: std::collections::VecDeque<FrameSpec>,
 }
 
 impl<'a> LinkGen<'a> {
@@ -326,6 +338,18 @@ impl<'a> LinkGen<'a> {
 
     /// Data words of one trigger.
     fn trigger_data(&mut self) -> Vec<Word> {
+        if let Some(fs) = self.plan.pop_front() {
+            let mut per_lane: Vec<Vec<Word>> = Vec::new();
+            let mut hr = Rng::new(fs.hit_seed);
+            for lf in &fs.lanes {
+                let stream = encode_lane(lf, &mut hr, self.cfg.max_hits);
+                per_lane.push(chunk9(&stream).iter().map(|c| words::data_word(lf.lane_id, c)).collect());
+            }
+            let lens: Vec<usize> = per_lane.iter().map(|v| v.len()).collect();
+            // the merge of the lanes' words is part of the (ignorable) content: seeded by hit_seed too
+            let order = merge_order(&lens, Merge::Random, &mut hr);
+            return order.into_iter().map(|(l, i)| per_lane[l][i]).collect();
+        }
         if self.cfg.stave_mode {
             // a full readout frame: every lane of the stave, one shared bunch counter
             let bc = self.rng.below(256) as u8;
@@ -641,6 +665,9 @@ pub fn gen_conforming(cfg: &GenCfg, rng: &mut Rng) -> Stream {
         if rng.chance(1, 3) {
             active |= rng.next_u32() & 0x0FFF_FFFF;
         }
+        if !cfg.frame_plan.is_empty() {
+            active = 0x0FFF_FFFF;
+        }
         let mut lg = LinkGen {
             cfg,
             rng: rng.fork(link_id as u64),
@@ -656,6 +683,7 @@ pub fn gen_conforming(cfg: &GenCfg, rng: &mut Rng) -> Stream {
             cdw_index: 0,
             last_internal_bc: None,
             packets: Vec::new(),
+            plan: if links.is_empty() { cfg.frame_plan.iter().cloned().collect() } else { Default::default() },
         };
         let n_hbf = rng.range(cfg.hbfs.0, cfg.hbfs.1) as usize;
         let mut orbit = rng.next_u32() >> 1;
